@@ -10,7 +10,7 @@ Names == { "null", "true", "false",
            "u64_0", "u64_1", "u64_2p63", "u64_max", "u64_255", "u64_256", "u64_i64max",
            "d_0", "d_m0", "d_1", "d_1_5", "d_2p63", "d_m1", "d_nan", "d_inf", "d_2p53",
            "h_0", "h_1", "h_1_5",
-           "s_short", "s_long", "s_empty", "s_bigint", "s_bigint_small", "s_bigdec", "s_1",
+           "s_short", "s_long", "s_empty", "s_bigint", "s_bigint_small", "s_bigdec", "s_1", "s_bigint_near", "s_bigint_neg", "s_bigint_neg_near", "s_bigdec_near",
            "bytes_empty", "bytes_12", "bytes_12_b64",
            "obj_default", "obj_empty", "obj_a1", "obj_ab", "obj_ba", "obj_a2",
            "arr_empty", "arr_1", "arr_1_2", "arr_1d",
